@@ -326,6 +326,58 @@ def guarded(run, case, st):
                      '%s: %s' % (type(e).__name__, e), case)
 
 
+def run_isolated(run, case, st):
+    """Run ``run(case, st)`` in a forked child so that module- or
+    class-level state the library may keep does not leak between cases (and
+    a finding that depends on such state is reproducible from its case)."""
+    import pickle
+    r, w = os.pipe()
+    pid = os.fork()
+
+    if pid == 0:
+        code = 0
+
+        try:
+            os.close(r)
+            sub = Stats()
+
+            try:
+                guarded(run, case, sub)
+                payload = ('ok', sub.buckets, dict(sub.classes),
+                           dict(sub.excluded))
+            except BaseException:
+                payload = ('error', traceback.format_exc(), {}, {})
+
+            with os.fdopen(w, 'wb') as fp:
+                pickle.dump(payload, fp)
+        except BaseException:
+            code = 1
+        finally:
+            os._exit(code)
+
+    os.close(w)
+
+    with os.fdopen(r, 'rb') as fp:
+        data = fp.read()
+
+    os.waitpid(pid, 0)
+
+    if not data:
+        raise sut.HarnessError('isolated case produced no result')
+
+    status, buckets, classes, excluded = pickle.loads(data)
+
+    if status == 'error':
+        raise sut.HarnessError('isolated case failed:\n%s' % buckets)
+
+    for kind, b in buckets.items():
+        st.violation(kind, b['detail'], case)
+        st.buckets[kind]['count'] += b['count'] - 1
+
+    st.classes.update(classes)
+    st.excluded.update(excluded)
+
+
 # ---------------------------------------------------------------------------
 # Workers
 # ---------------------------------------------------------------------------
